@@ -1,0 +1,167 @@
+//! Verification seam for the in-memory zone's locks.
+//!
+//! Only compiled with the `verif-hooks` feature, which nothing enables by
+//! default. The types below have the API subset of `parking_lot::RwLock` and
+//! `tokio::sync::Mutex` that `zonetree::in_memory` uses and return the very
+//! same guard types. When a backend has been registered (by a model-checking
+//! harness), every acquisition first reports a scheduling point to it and
+//! then acquires with try-lock in a loop, reporting `Contended` between
+//! attempts, so that a controlled scheduler sees every synchronisation
+//! point and a blocked acquisition never blocks an OS thread. Without a
+//! backend they behave exactly like the wrapped locks.
+#![allow(missing_docs)]
+
+use core::fmt;
+use std::sync::{Arc, OnceLock};
+
+use parking_lot::{
+    RwLockReadGuard, RwLockUpgradableReadGuard, RwLockWriteGuard,
+};
+use tokio::sync::OwnedMutexGuard;
+
+/// What is about to happen at a scheduling point.
+#[derive(Clone, Copy, Debug, PartialEq, Eq)]
+pub enum Event {
+    /// A lock is about to be acquired.
+    Acquire,
+    /// A try-lock failed; the caller will retry.
+    Contended,
+}
+
+static BACKEND: OnceLock<fn(Event)> = OnceLock::new();
+
+/// Registers the backend. Can be done once per process.
+pub fn set_backend(backend: fn(Event)) -> bool {
+    BACKEND.set(backend).is_ok()
+}
+
+#[inline]
+fn backend() -> Option<fn(Event)> {
+    BACKEND.get().copied()
+}
+
+/// Reports an extra scheduling point.
+#[inline]
+pub fn point(event: Event) {
+    if let Some(f) = backend() {
+        f(event)
+    }
+}
+
+//------------ RwLock --------------------------------------------------------
+
+#[derive(Default)]
+pub struct RwLock<T>(parking_lot::RwLock<T>);
+
+impl<T> RwLock<T> {
+    pub fn new(value: T) -> Self {
+        RwLock(parking_lot::RwLock::new(value))
+    }
+
+    pub fn read(&self) -> RwLockReadGuard<'_, T> {
+        match backend() {
+            None => self.0.read(),
+            Some(f) => {
+                f(Event::Acquire);
+                loop {
+                    if let Some(guard) = self.0.try_read() {
+                        return guard;
+                    }
+                    f(Event::Contended);
+                }
+            }
+        }
+    }
+
+    pub fn write(&self) -> RwLockWriteGuard<'_, T> {
+        match backend() {
+            None => self.0.write(),
+            Some(f) => {
+                f(Event::Acquire);
+                loop {
+                    if let Some(guard) = self.0.try_write() {
+                        return guard;
+                    }
+                    f(Event::Contended);
+                }
+            }
+        }
+    }
+
+    pub fn upgradable_read(&self) -> RwLockUpgradableReadGuard<'_, T> {
+        match backend() {
+            None => self.0.upgradable_read(),
+            Some(f) => {
+                f(Event::Acquire);
+                loop {
+                    if let Some(guard) = self.0.try_upgradable_read() {
+                        return guard;
+                    }
+                    f(Event::Contended);
+                }
+            }
+        }
+    }
+}
+
+/// `RwLockUpgradableReadGuard::upgrade` through the seam.
+pub fn upgrade<'a, T>(
+    mut guard: RwLockUpgradableReadGuard<'a, T>,
+) -> RwLockWriteGuard<'a, T> {
+    match backend() {
+        None => RwLockUpgradableReadGuard::upgrade(guard),
+        Some(f) => {
+            f(Event::Acquire);
+            loop {
+                match RwLockUpgradableReadGuard::try_upgrade(guard) {
+                    Ok(write) => return write,
+                    Err(back) => guard = back,
+                }
+                f(Event::Contended);
+            }
+        }
+    }
+}
+
+impl<T: fmt::Debug> fmt::Debug for RwLock<T> {
+    fn fmt(&self, f: &mut fmt::Formatter<'_>) -> fmt::Result {
+        self.0.fmt(f)
+    }
+}
+
+//------------ Mutex ---------------------------------------------------------
+
+pub struct Mutex<T>(Arc<tokio::sync::Mutex<T>>);
+
+impl<T> Mutex<T> {
+    pub fn new(value: T) -> Self {
+        Mutex(Arc::new(tokio::sync::Mutex::new(value)))
+    }
+
+    pub async fn lock_owned(self: Arc<Self>) -> OwnedMutexGuard<T> {
+        match backend() {
+            None => self.0.clone().lock_owned().await,
+            Some(f) => {
+                f(Event::Acquire);
+                loop {
+                    if let Ok(guard) = self.0.clone().try_lock_owned() {
+                        return guard;
+                    }
+                    f(Event::Contended);
+                }
+            }
+        }
+    }
+}
+
+impl<T: Default> Default for Mutex<T> {
+    fn default() -> Self {
+        Mutex::new(T::default())
+    }
+}
+
+impl<T: fmt::Debug> fmt::Debug for Mutex<T> {
+    fn fmt(&self, f: &mut fmt::Formatter<'_>) -> fmt::Result {
+        self.0.fmt(f)
+    }
+}
